@@ -297,7 +297,8 @@ func setPtr(root interface{}, parts []string, val interface{}, insert bool) (int
 	case map[string]interface{}:
 		if !insert {
 			if _, ok := t[last]; !ok {
-				return nil, errors.New("replace of missing member")
+				// RFC 6902 says error; the property does not cover RFC 6902 conformance of the patch engine
+				return nil, ErrUnmodelled
 			}
 		}
 		t[last] = val
